@@ -77,7 +77,7 @@ Prev == Tr[l - 1]
 ValOf(vs, dev, name, el) == LET i == Find(vs, dev, name) IN
                             IF i = 0 THEN "absent"
                             ELSE IF \E j \in DOMAIN vs[i].els : vs[i].els[j][1] = el
-                                 THEN vs[i].els[CHOOSE j \in DOMAIN vs[i].els : vs[i].els[j][1] = el][2] ELSE "absent"
+                                 THEN vs[i].els[CHOOSE j \in DOMAIN vs[i].els : vs[i].els[j][1] = el][4] ELSE "absent"     \* the exact value
 Named(el) == \E k \in DOMAIN E.vals : E.vals[k][1] = el
 LastVal(el) == LET I == {k \in DOMAIN E.vals : E.vals[k][1] = el} IN E.vals[CHOOSE k \in I : \A j \in I : j <= k][2]
 C06OK == (E.o = "client-write" /\ l > 1) =>
@@ -85,8 +85,8 @@ C06OK == (E.o = "client-write" /\ l > 1) =>
               \A j \in DOMAIN t.els : LET el == t.els[j][1]
                                           before == ValOf(Prev.truth, t.dev, t.name, el)
                                       IN IF t.dev = E.target[1] /\ t.name = E.target[2]
-                                         THEN t.kind = "switch" \/ (IF Named(el) THEN t.els[j][2] = LastVal(el) ELSE t.els[j][2] = before)
-                                         ELSE before = "absent" \/ t.els[j][2] = before
+                                         THEN t.kind = "switch" \/ (IF Named(el) THEN t.els[j][4] = LastVal(el) ELSE t.els[j][4] = before)
+                                         ELSE before = "absent" \/ t.els[j][4] = before
 Step == /\ l <= Len(Tr) /\ l' = l + 1 /\ UNCHANGED tid
         /\ E.quiet                                  \* nothing hangs: pumping every link reaches quiescence
         /\ E.errors = <<>>                          \* no task died
